@@ -30,6 +30,7 @@ def families(tier, seed):
         out.append(dict(name=f'AutomatonStepper action ignoring one next value {sh.name}', run=sc.stepper_family(sh, False, True), label='per-shape'))
     out.append(dict(name='name mangling', run=sc.mangling_check(), label='bounded'))
     out.append(dict(name='assemblies', run=sc.assembly_check(seed, 6), label='bounded'))
+    out.append(dict(name='assemblies of symbolic steppers (Moore and Mealy components)', run=sc.symbolic_assembly_check(), label='bounded'))
     out.append(dict(name='scheduler/component/enum stepper', run=sc.misc_check(), label='bounded'))
     out.append(dict(name='stepper on synthesized implementations', run=sc.stepper_on_implementations(seed, 12 if tier == 'quick' else 400), label='bounded'))
     return out
